@@ -16,8 +16,9 @@ Qed.
 
 Lemma mem_false k l : mem k l = false <-> ~ In k l.
 Proof.
-  rewrite <- mem_In. destruct (mem k l); split; intros; try congruence; try tauto.
-  exfalso. apply H. reflexivity.
+  rewrite <- mem_In. destruct (mem k l).
+  - split; [discriminate | intros H; exfalso; apply H; reflexivity].
+  - split; [intros _ H; discriminate | reflexivity].
 Qed.
 
 Lemma sadd_In x k l : In x (sadd k l) <-> x = k \/ In x l.
@@ -44,9 +45,7 @@ Lemma fold_srem_In x ks : forall m,
 Proof.
   induction ks as [|k ks IH]; intros m; simpl.
   - tauto.
-  - rewrite IH, srem_In. split.
-    + intros [[H1 H2] H3]. split; [exact H1|]. intros [E|E]; [congruence | tauto].
-    + intros [H1 H2]. repeat split; auto. intros E. apply H2. left. congruence.
+  - rewrite IH, srem_In. intuition congruence.
 Qed.
 
 Lemma has_dup_NoDup l : has_dup l = false <-> NoDup l.
@@ -140,7 +139,7 @@ Lemma sum_work_spec l : sum_work l = total_work l mod M64.
 Proof.
   unfold sum_work. rewrite fold_wadd.
   - reflexivity.
-  - unfold M64. apply N.pow_pos_nonneg; lia.
+  - pose proof M64_pos. lia.
 Qed.
 
 Lemma sum_work_cons t l : sum_work (t :: l) = wadd (sum_work l) (t_work t).
@@ -218,7 +217,9 @@ Lemma add_if_valid_cases l p t p' :
   p' = p \/ (tx_validate l t = true /\ conflicts p t = false /\
              has_tx (t_id t) (txs p) = false /\ p' = added p t).
 Proof.
-  unfold add_transaction_if_validates. destruct (tx_validate l t) eqn:V.
+  unfold add_transaction_if_validates.
+  destruct (producer_only t); [intros H; inversion H; auto|].
+  destruct (tx_validate l t) eqn:V.
   - intros H. apply add_transaction_cases in H. tauto.
   - intros H. inversion H. auto.
 Qed.
@@ -276,22 +277,40 @@ Lemma in_block_cons t a b :
   (match t_type a with TGoldenTicket => false | _ => t_id a =? t_id t end) || in_block t b.
 Proof. reflexivity. Qed.
 
+Lemma filter_filter {A} (f g : A -> bool) l :
+  filter g (filter f l) = filter (fun x => f x && g x) l.
+Proof.
+  induction l as [|a l IH]; simpl; [reflexivity|].
+  destruct (f a); simpl; [destruct (g a); simpl; congruence | exact IH].
+Qed.
+
+Definition hits (a t : tx) : bool :=
+  match t_type a with TGoldenTicket => false | _ => t_id a =? t_id t end.
+
+Lemma delete_one_fields p a :
+  txs (delete_one p a) = filter (fun t => negb (hits a t)) (txs p) /\
+  umap (delete_one p a) = umap p /\ work (delete_one p a) = work p /\
+  Mempool.fresh (delete_one p a) = Mempool.fresh p.
+Proof.
+  unfold delete_one, hits.
+  destruct (t_type a); simpl; repeat split;
+    try (symmetry; apply filter_all; reflexivity);
+    unfold del_tx; apply filter_ext; intros t; rewrite (N.eqb_sym (t_id a)); reflexivity.
+Qed.
+
 Lemma delete_fold_fields b : forall p,
   txs (fold_left delete_one b p) = filter (fun t => negb (in_block t b)) (txs p) /\
   umap (fold_left delete_one b p) = umap p /\
   work (fold_left delete_one b p) = work p /\
-  fresh (fold_left delete_one b p) = fresh p.
+  Mempool.fresh (fold_left delete_one b p) = Mempool.fresh p.
 Proof.
   induction b as [|a b IH]; intros p; simpl fold_left.
   - repeat split. symmetry. apply filter_all. reflexivity.
-  - destruct (IH (delete_one p a)) as [H1 [H2 [H3 H4]]]. rewrite H1, H2, H3, H4.
-    unfold delete_one. destruct (t_type a) eqn:T; simpl; repeat split;
-      try (apply filter_ext; intros t; rewrite in_block_cons, T; reflexivity);
-      unfold del_tx;
-      (induction (txs p) as [|x r IHr]; simpl; [reflexivity|];
-       rewrite in_block_cons, T; rewrite (N.eqb_sym (t_id a) (t_id x));
-       destruct (t_id x =? t_id a); simpl; [exact IHr|];
-       destruct (in_block x b); simpl; [exact IHr | f_equal; exact IHr]).
+  - destruct (IH (delete_one p a)) as [H1 [H2 [H3 H4]]].
+    destruct (delete_one_fields p a) as [G1 [G2 [G3 G4]]].
+    rewrite H1, H2, H3, H4, G1, G2, G3, G4. repeat split.
+    rewrite filter_filter. apply filter_ext. intros t.
+    rewrite in_block_cons. fold (hits a t). rewrite negb_orb. reflexivity.
 Qed.
 
 Lemma remove_block_fields l p b :
@@ -309,3 +328,757 @@ Lemma delete_block_fields p h :
   txs (delete_block p h) = txs p /\ umap (delete_block p h) = umap p /\
   work (delete_block p h) = work p.
 Proof. unfold delete_block. simpl. auto. Qed.
+
+(* ------------------------------------------------------------------ *)
+(* bundle_block                                                        *)
+
+Definition bundled_pool (p1 : pool) (block : list tx) : pool :=
+  mkP [] (fold_left (fun m k => srem k m) (block_keys block) (umap p1)) 0 false (gts p1).
+
+Lemma bundle_cases l p env wn st ex p' r :
+  bundle_block l p env wn st ex = Ok (p', r) ->
+  (p' = p /\ r = None /\ create_fails l p env wn st ex = false) \/
+  exists s p1, st = Some s /\ can_bundle_block p env wn = true /\
+    add_transaction_if_validates l p s = Ok p1 /\
+    ((dup_spend (txs p1 ++ ex) = true /\ create_fails l p env wn st ex = true /\
+      p' = set_txs p1 [] /\ r = None) \/
+     (dup_spend (txs p1 ++ ex) = false /\ create_fails l p env wn st ex = false /\
+      p' = bundled_pool p1 (txs p1 ++ ex) /\ r = Some (txs p1 ++ ex))).
+Proof.
+  unfold bundle_block, create_fails.
+  destruct (can_bundle_block p env wn) eqn:C; simpl.
+  2:{ intros H. inversion H. left. auto. }
+  destruct st as [s|].
+  2:{ intros H. inversion H. left. auto. }
+  destruct (add_transaction_if_validates l p s) as [p1| |site] eqn:A; simpl; try discriminate.
+  destruct (dup_spend (txs p1 ++ ex)) eqn:D; intros H; inversion H; subst;
+    right; exists s, p1; repeat split; auto.
+Qed.
+
+(* ------------------------------------------------------------------ *)
+(* putting transactions back                                           *)
+
+Lemma add_back_fields l p mine b :
+  umap (add_block_transactions_back l p mine b) = umap p /\
+  work (add_block_transactions_back l p mine b) = work p.
+Proof. unfold add_block_transactions_back. destruct mine; simpl; auto. Qed.
+
+Lemma add_failure_no_readd l p h b :
+  is_nil (back_txs l b) = true ->
+  txs (add_block_failure l p h true b) = txs p.
+Proof.
+  unfold add_block_failure, add_block_transactions_back. simpl.
+  destruct (back_txs l b); simpl; [reflexivity | discriminate].
+Qed.
+
+Lemma add_failure_not_mine l p h b :
+  txs (add_block_failure l p h false b) = txs p.
+Proof. reflexivity. Qed.
+
+Lemma add_failure_fields l p h mine b :
+  umap (add_block_failure l p h mine b) = umap p /\
+  work (add_block_failure l p h mine b) = work p.
+Proof.
+  unfold add_block_failure.
+  destruct (add_back_fields l (delete_block p h) mine b) as [H1 H2].
+  rewrite H1, H2. simpl. auto.
+Qed.
+
+(* ------------------------------------------------------------------ *)
+(* runs                                                                *)
+
+Lemma run_cons s o r s' :
+  run s (o :: r) = Ok s' -> exists x, step s o = Ok x /\ run (fst x) r = Ok s'.
+Proof.
+  simpl. destruct (step s o) as [x| |site]; simpl; try discriminate. eauto.
+Qed.
+
+(* generic induction: an invariant preserved by every step outside class K
+   holds after every run that has no step in K *)
+Lemma run_invariant (K : state -> op -> bool) (Inv : state -> Prop) :
+  (forall s o x, Inv s -> K s o = false -> step s o = Ok x -> Inv (fst x)) ->
+  forall ops s s', Inv s -> known_in K s ops = false -> run s ops = Ok s' -> Inv s'.
+Proof.
+  intros Hstep. induction ops as [|o r IH]; intros s s' HI HK HR.
+  - simpl in HR. inversion HR. subst. exact HI.
+  - apply run_cons in HR. destruct HR as [x [Hs Hr]].
+    simpl in HK. apply orb_false_iff in HK. destruct HK as [HK1 HK2].
+    rewrite Hs in HK2. eapply IH; [eapply Hstep; eauto | exact HK2 | exact Hr].
+Qed.
+
+Lemma known_in_weaken (K K' : state -> op -> bool) :
+  (forall s o, K s o = true -> K' s o = true) ->
+  forall ops s, known_in K' s ops = false -> known_in K s ops = false.
+Proof.
+  intros H. induction ops as [|o r IH]; intros s HK; simpl in *; [reflexivity|].
+  apply orb_false_iff in HK. destruct HK as [H1 H2]. apply orb_false_iff. split.
+  - destruct (K s o) eqn:E; [|reflexivity]. apply H in E. congruence.
+  - destruct (step s o); auto.
+Qed.
+
+(* ------------------------------------------------------------------ *)
+(* I1 (with the two auxiliary invariants it needs)                     *)
+
+Definition Inv1 (s : state) : Prop := UniqueIds (pl s) /\ Reserved (pl s) /\ I1 (pl s).
+
+Lemma Inv1_empty_txs p : txs p = [] -> UniqueIds p /\ Reserved p /\ I1 p.
+Proof.
+  intros E. unfold UniqueIds, Reserved, I1. rewrite E. simpl.
+  repeat split; try constructor. intros t k [].
+Qed.
+
+Lemma Inv1_add l p t p' :
+  add_transaction_if_validates l p t = Ok p' ->
+  UniqueIds p /\ Reserved p /\ I1 p -> UniqueIds p' /\ Reserved p' /\ I1 p'.
+Proof.
+  intros H [U [R I]]. apply add_if_valid_cases in H.
+  destruct H as [->|[_ [C [Hn ->]]]]; [tauto|].
+  repeat split; [apply added_UniqueIds | apply added_Reserved | apply added_I1]; auto.
+Qed.
+
+Lemma Inv1_sub p p' (g : tx -> bool) :
+  txs p' = filter g (txs p) -> umap p' = umap p ->
+  UniqueIds p /\ Reserved p /\ I1 p -> UniqueIds p' /\ Reserved p' /\ I1 p'.
+Proof.
+  unfold UniqueIds, Reserved, I1. intros E1 E2 [U [R I]]. rewrite E1, E2. repeat split.
+  - apply NoDup_map_filter. exact U.
+  - intros t k Ht Hk. apply filter_In in Ht. eapply R; eauto. tauto.
+  - apply FOP_filter. exact I.
+Qed.
+
+Lemma Inv1_same p p' :
+  txs p' = txs p -> umap p' = umap p ->
+  UniqueIds p /\ Reserved p /\ I1 p -> UniqueIds p' /\ Reserved p' /\ I1 p'.
+Proof.
+  unfold UniqueIds, Reserved, I1. intros E1 E2. rewrite E1, E2. tauto.
+Qed.
+
+Lemma Inv1_step s o x :
+  Inv1 s -> ev_readded s o = false -> step s o = Ok x -> Inv1 (fst x).
+Proof.
+  unfold Inv1. intros HI HK HS. destruct o as [t|a b|env wn st ex|l b|h mine b]; simpl in HS.
+  - destruct (add_transaction_if_validates (ledger s) (pl s) t) eqn:A; simpl in HS; try discriminate.
+    inversion HS. subst. simpl. eapply Inv1_add; eauto.
+  - inversion HS. subst. simpl. destruct (add_gt_fields (pl s) a b) as [E1 [E2 _]].
+    eapply Inv1_same; eauto.
+  - destruct (bundle_block (ledger s) (pl s) env wn st ex) as [[p' r]| |] eqn:B; simpl in HS; try discriminate.
+    inversion HS. subst. simpl. apply bundle_cases in B.
+    destruct B as [[-> _]|[s0 [p1 [_ [_ [A [[_ [_ [-> _]]]|[_ [_ [-> _]]]]]]]]]]; auto;
+      apply Inv1_empty_txs; reflexivity.
+  - inversion HS. subst. simpl.
+    destruct (remove_block_fields l (pl s) b) as [E1 [E2 _]].
+    apply (Inv1_sub (pl s) _ (fun t => valid_against l t && negb (in_block t b))); [ | exact E2 | exact HI].
+    rewrite E1. apply filter_filter.
+  - inversion HS. subst. simpl.
+    destruct (add_failure_fields (ledger s) (pl s) h mine b) as [E2 _].
+    apply (Inv1_same (pl s)); [ | exact E2 | exact HI].
+    destruct mine; [|apply add_failure_not_mine].
+    apply add_failure_no_readd. simpl in HK. apply negb_false_iff in HK. exact HK.
+Qed.
+
+Lemma Inv1_init g : Inv1 (init g).
+Proof. apply Inv1_empty_txs. reflexivity. Qed.
+
+Theorem no_double_spend_in_pool : forall g ops s,
+  known_in ev_readded (init g) ops = false -> run (init g) ops = Ok s -> I1 (pl s).
+Proof.
+  intros g ops s HK HR.
+  assert (Inv1 s) as [_ [_ H]]; [|exact H].
+  eapply (run_invariant ev_readded Inv1); eauto using Inv1_step, Inv1_init.
+Qed.
+
+Theorem pooled_inputs_reserved : forall g ops s,
+  known_in ev_readded (init g) ops = false -> run (init g) ops = Ok s ->
+  UniqueIds (pl s) /\ Reserved (pl s).
+Proof.
+  intros g ops s HK HR.
+  assert (Inv1 s) as [H1 [H2 _]]; [|auto].
+  eapply (run_invariant ev_readded Inv1); eauto using Inv1_step, Inv1_init.
+Qed.
+
+(* the map invariant holds unconditionally *)
+Lemma fold_insert_unique back : forall l,
+  NoDup (map t_id l) -> NoDup (map t_id (fold_left insert_tx back l)).
+Proof.
+  induction back as [|u back IH]; intros l H; simpl; [exact H|].
+  apply IH. unfold insert_tx. simpl. constructor.
+  - intros Hin. apply in_map_iff in Hin. destruct Hin as [x [E Hx]].
+    apply del_tx_In in Hx. tauto.
+  - unfold del_tx. apply NoDup_map_filter. exact H.
+Qed.
+
+Lemma UniqueIds_step s o x :
+  UniqueIds (pl s) -> step s o = Ok x -> UniqueIds (pl (fst x)).
+Proof.
+  intros U HS. destruct o as [t|a b|env wn st ex|l b|h mine b]; simpl in HS.
+  - destruct (add_transaction_if_validates (ledger s) (pl s) t) eqn:A; simpl in HS; try discriminate.
+    inversion HS. subst. simpl. apply add_if_valid_cases in A.
+    destruct A as [->|[_ [_ [Hn ->]]]]; auto using added_UniqueIds.
+  - inversion HS. subst. simpl. unfold UniqueIds.
+    destruct (add_gt_fields (pl s) a b) as [E1 _]. rewrite E1. exact U.
+  - destruct (bundle_block (ledger s) (pl s) env wn st ex) as [[p' r]| |] eqn:B; simpl in HS; try discriminate.
+    inversion HS. subst. simpl. apply bundle_cases in B.
+    destruct B as [[-> _]|[s0 [p1 [_ [_ [A [[_ [_ [-> _]]]|[_ [_ [-> _]]]]]]]]]]; auto;
+      unfold UniqueIds; simpl; constructor.
+  - inversion HS. subst. simpl. unfold UniqueIds.
+    destruct (remove_block_fields l (pl s) b) as [E1 _]. rewrite E1.
+    apply NoDup_map_filter. apply NoDup_map_filter. exact U.
+  - inversion HS. subst. simpl. unfold UniqueIds, add_block_failure, add_block_transactions_back.
+    destruct mine; simpl; [|exact U]. apply fold_insert_unique. exact U.
+Qed.
+
+Theorem ids_unique : forall g ops s, run (init g) ops = Ok s -> UniqueIds (pl s).
+Proof.
+  intros g ops s HR.
+  eapply (run_invariant (fun _ _ => false) (fun s => UniqueIds (pl s))); eauto.
+  - intros. eapply UniqueIds_step; eauto.
+  - unfold UniqueIds. simpl. constructor.
+  - clear. generalize (init g). induction ops as [|o r IH]; intros s; simpl; [reflexivity|].
+    destruct (step s o); auto.
+Qed.
+
+(* ------------------------------------------------------------------ *)
+(* I2: after remove_block_transactions every pooled transaction validates *)
+
+Theorem pooled_valid_after_block : forall s l b x,
+  step s (OBlockAdded l b) = Ok x -> ledger (fst x) = l /\ I2 l (pl (fst x)).
+Proof.
+  intros s l b x H. simpl in H. inversion H. subst. simpl. split; [reflexivity|].
+  intros t Ht. destruct (remove_block_fields l (pl s) b) as [E _]. rewrite E in Ht.
+  apply filter_In in Ht. destruct Ht as [Ht _]. apply filter_In in Ht. tauto.
+Qed.
+
+(* ... and stays valid until the ledger changes again, as long as what arrives is of a
+   type whose validate() consults the utxoset (Fee / SPV / BlockStake carry no value inputs
+   in the node's own traffic: the staking transaction of bundle_block) *)
+Definition consults_ledger (t : tx) : Prop :=
+  match t_type t with
+  | TFee | TSPV | TBlockStake => vkeys t = []
+  | _ => True
+  end.
+
+Lemma valid_no_vkeys l t : vkeys t = [] -> valid_against l t = true.
+Proof.
+  unfold valid_against, vkeys. intros H. destruct (t_type t); try reflexivity;
+    apply forallb_forall; intros i Hi; unfold slip_valid;
+    destruct (0 <? snd i) eqn:E; try reflexivity;
+    (assert (In (fst i) (map fst (filter (fun i => 0 <? snd i) (t_inputs t))))
+      by (apply in_map; apply filter_In; auto)); rewrite H in *; contradiction.
+Qed.
+
+Lemma tx_validate_valid l t :
+  consults_ledger t -> tx_validate l t = true -> valid_against l t = true.
+Proof.
+  unfold consults_ledger, tx_validate. intros C H. apply andb_true_iff in H. destruct H as [_ H].
+  destruct (t_type t) eqn:T; auto; apply valid_no_vkeys; exact C.
+Qed.
+
+Definition op_consults (o : op) : Prop :=
+  match o with
+  | OAddTx t => consults_ledger t
+  | OBundle _ _ (Some st) _ => consults_ledger st
+  | _ => True
+  end.
+
+Lemma fold_insert_In back : forall l t,
+  In t (fold_left insert_tx back l) -> In t l \/ In t back.
+Proof.
+  induction back as [|u back IH]; intros l t H; simpl in H; [auto|].
+  apply IH in H. destruct H as [H|H]; [|right; right; exact H].
+  unfold insert_tx in H. destruct H as [->|H]; [right; left; reflexivity|].
+  apply del_tx_In in H. tauto.
+Qed.
+
+Lemma I2_step s o x :
+  op_consults o -> I2 (ledger s) (pl s) -> step s o = Ok x -> I2 (ledger (fst x)) (pl (fst x)).
+Proof.
+  intros HC HI HS. destruct o as [t|a b|env wn st ex|l b|h mine b].
+  - simpl in HS.
+    destruct (add_transaction_if_validates (ledger s) (pl s) t) eqn:A; simpl in HS; try discriminate.
+    inversion HS. subst. simpl. apply add_if_valid_cases in A.
+    destruct A as [->|[V [_ [_ ->]]]]; [exact HI|].
+    intros u [<-|Hu]; [apply tx_validate_valid; assumption | apply HI; exact Hu].
+  - simpl in HS. inversion HS. subst. simpl. unfold I2.
+    destruct (add_gt_fields (pl s) a b) as [E _]. rewrite E. exact HI.
+  - simpl in HS.
+    destruct (bundle_block (ledger s) (pl s) env wn st ex) as [[p' r]| |] eqn:B; simpl in HS; try discriminate.
+    inversion HS. subst. simpl. apply bundle_cases in B.
+    destruct B as [[-> _]|[s0 [p1 [_ [_ [A [[_ [_ [-> _]]]|[_ [_ [-> _]]]]]]]]]]; auto;
+      intros u [].
+  - apply pooled_valid_after_block in HS. destruct HS as [E H]. rewrite E. exact H.
+  - simpl in HS. inversion HS. subst. simpl. intros t Ht.
+    unfold add_block_failure, add_block_transactions_back in Ht. destruct mine; simpl in Ht.
+    + apply fold_insert_In in Ht. destruct Ht as [Ht|Ht]; [apply HI; exact Ht|].
+      unfold back_txs in Ht. apply filter_In in Ht. destruct Ht as [_ Ht].
+      apply andb_true_iff in Ht. destruct Ht as [Hn Hv].
+      apply tx_validate_valid; [|exact Hv].
+      unfold consults_ledger. unfold is_normal in Hn. destruct (t_type t); try discriminate. exact I.
+    + apply HI. exact Ht.
+Qed.
+
+Theorem pooled_valid_always : forall g ops s,
+  Forall op_consults ops -> run (init g) ops = Ok s -> I2 (ledger s) (pl s).
+Proof.
+  intros g ops. generalize (init g) (fun t (H : In t (txs (pl (init g)))) => match H with end : valid_against (ledger (init g)) t = true).
+  induction ops as [|o r IH]; intros s0 H0 s HF HR.
+  - simpl in HR. inversion HR. subst. exact H0.
+  - inversion HF; subst. apply run_cons in HR. destruct HR as [x [Hs Hr]].
+    eapply IH; [|eassumption|exact Hr]. eapply I2_step; eauto.
+Qed.
+
+(* ------------------------------------------------------------------ *)
+(* I3                                                                  *)
+
+Definition K3 (s : state) (o : op) : bool :=
+  ev_invalidated s o || ev_confirmed s o || ev_failed_create s o || ev_sig_collision s o.
+
+(* re-insertion keeps, for every pooled transaction, one with the same inputs *)
+Lemma fold_insert_keeps back : forall l,
+  (forall u, In u back -> forall t, In t (l ++ back) -> t_id t = t_id u -> in_keys t = in_keys u) ->
+  forall t, In t l -> exists t', In t' (fold_left insert_tx back l) /\ in_keys t' = in_keys t.
+Proof.
+  induction back as [|u back IH]; intros l H t Ht; simpl; [eauto|].
+  assert (Hnext : forall u0, In u0 back -> forall t0, In t0 (insert_tx l u ++ back) ->
+                  t_id t0 = t_id u0 -> in_keys t0 = in_keys u0).
+  { intros u0 Hu0 t0 Ht0 E. apply (H u0); [right; exact Hu0| |exact E].
+    apply in_app_iff in Ht0. apply in_app_iff. destruct Ht0 as [Ht0|Ht0]; [|right; right; exact Ht0].
+    unfold insert_tx in Ht0. destruct Ht0 as [<-|Ht0]; [right; left; reflexivity|].
+    apply del_tx_In in Ht0. left. tauto. }
+  destruct (N.eq_dec (t_id t) (t_id u)) as [E|E].
+  - destruct (IH (insert_tx l u) Hnext u) as [t' [H1 H2]]; [left; reflexivity|].
+    exists t'. split; [exact H1|]. rewrite H2. symmetry. apply (H u); [left; reflexivity| |exact E].
+    apply in_app_iff. left. exact Ht.
+  - apply (IH (insert_tx l u) Hnext t). right. apply del_tx_In. tauto.
+Qed.
+
+Lemma sig_collision_false s h b :
+  ev_sig_collision s (OBlockFailed h true b) = false ->
+  forall u, In u (back_txs (ledger s) b) ->
+  forall t, In t (txs (pl s) ++ back_txs (ledger s) b) -> t_id t = t_id u -> in_keys t = in_keys u.
+Proof.
+  simpl. intros H u Hu t Ht E. rewrite existsb_false in H. specialize (H u Hu).
+  rewrite existsb_false in H. specialize (H t Ht).
+  apply andb_false_iff in H. destruct H as [H|H].
+  - apply N.eqb_neq in H. contradiction.
+  - apply negb_false_iff in H. revert H. generalize (in_keys t) (in_keys u). clear.
+    induction l as [|a l IH]; intros [|c m] H; simpl in H; try discriminate; [reflexivity|].
+    apply andb_true_iff in H. destruct H as [H1 H2]. apply N.eqb_eq in H1. subst.
+    f_equal. apply IH. exact H2.
+Qed.
+
+Lemma I3_step s o x :
+  I3 (pl s) -> K3 s o = false -> step s o = Ok x -> I3 (pl (fst x)).
+Proof.
+  unfold K3. intros HI HK HS.
+  apply orb_false_iff in HK; destruct HK as [HK Hsc].
+  apply orb_false_iff in HK; destruct HK as [HK Hfc].
+  apply orb_false_iff in HK; destruct HK as [Hinv Hconf].
+  destruct o as [t|a b|env wn st ex|l b|h mine b]; simpl in HS.
+  - destruct (add_transaction_if_validates (ledger s) (pl s) t) eqn:A; simpl in HS; try discriminate.
+    inversion HS. subst. simpl. apply add_if_valid_cases in A.
+    destruct A as [->|[_ [_ [_ ->]]]]; auto using added_I3.
+  - inversion HS. subst. simpl. unfold I3.
+    destruct (add_gt_fields (pl s) a b) as [E1 [E2 _]]. rewrite E1, E2. exact HI.
+  - destruct (bundle_block (ledger s) (pl s) env wn st ex) as [[p' r]| |] eqn:B; simpl in HS; try discriminate.
+    inversion HS. subst. simpl. apply bundle_cases in B.
+    destruct B as [[-> _]|[s0 [p1 [_ [_ [A [[_ [F _]]|[_ [_ [-> _]]]]]]]]]]; auto.
+    + simpl in *. congruence.
+    + assert (I3 p1) as H1.
+      { apply add_if_valid_cases in A. destruct A as [->|[_ [_ [_ ->]]]]; auto using added_I3. }
+      intros k Hk. simpl in Hk. apply fold_srem_In in Hk. destruct Hk as [Hk Hn].
+      destruct (H1 k Hk) as [t [Ht Hkt]]. exfalso. apply Hn. unfold block_keys.
+      apply in_flat_map. exists t. split; [apply in_app_iff; left; exact Ht | exact Hkt].
+  - inversion HS. subst. simpl.
+    destruct (remove_block_fields l (pl s) b) as [E1 [E2 _]].
+    intros k Hk. rewrite E2 in Hk. destruct (HI k Hk) as [t [Ht Hkt]].
+    exists t. split; [|exact Hkt]. rewrite E1.
+    simpl in Hinv, Hconf. rewrite existsb_false in Hinv, Hconf.
+    specialize (Hinv t Ht). specialize (Hconf t Ht).
+    assert (Hnb : in_block t b = false).
+    { apply andb_false_iff in Hconf. destruct Hconf as [H1|H1]; [exact H1|].
+      apply negb_false_iff in H1. unfold in_keys in Hkt.
+      destruct (t_inputs t); [contradiction | discriminate]. }
+    rewrite Hnb in Hinv. simpl in Hinv. rewrite andb_true_r in Hinv. apply negb_false_iff in Hinv.
+    apply filter_In. split; [apply filter_In; auto|]. rewrite Hnb. reflexivity.
+  - inversion HS. subst. simpl.
+    destruct (add_failure_fields (ledger s) (pl s) h mine b) as [E2 _].
+    intros k Hk. rewrite E2 in Hk. destruct (HI k Hk) as [t [Ht Hkt]].
+    unfold add_block_failure, add_block_transactions_back. destruct mine; simpl; [|eauto].
+    destruct (fold_insert_keeps (back_txs (ledger s) b) (txs (pl s))
+                (sig_collision_false s h b Hsc) t Ht) as [t' [H1' H2']].
+    exists t'. split; [exact H1'|]. rewrite H2'. exact Hkt.
+Qed.
+
+Theorem no_stale_reservation : forall g ops s,
+  known_in K3 (init g) ops = false -> run (init g) ops = Ok s -> I3 (pl s).
+Proof.
+  intros g ops s HK HR.
+  eapply (run_invariant K3 (fun s => I3 (pl s))); eauto using I3_step.
+  intros k [].
+Qed.
+
+(* user-visible form: an output that no pooled transaction names as an input can be
+   spent by a fresh valid transaction *)
+Theorem fresh_spend_pooled : forall l p t,
+  I3 p ->
+  tx_validate l t = true -> t_type t <> TGoldenTicket -> producer_only t = false ->
+  has_tx (t_id t) (txs p) = false ->
+  (forall k u, In k (vkeys t) -> In u (txs p) -> ~ In k (in_keys u)) ->
+  exists p', add_transaction_if_validates l p t = Ok p' /\ In t (txs p').
+Proof.
+  intros l p t H3 V T PO Hn Hfree.
+  unfold add_transaction_if_validates. rewrite PO, V. unfold add_transaction.
+  assert (conflicts p t = false) as C.
+  { unfold conflicts. apply existsb_false. intros k Hk. apply mem_false. intros Hin.
+    destruct (H3 k Hin) as [u [Hu Hku]]. eapply Hfree; eauto. }
+  rewrite C, Hn. exists (added p t).
+  destruct (t_type t); try congruence; split; try reflexivity; simpl; auto.
+Qed.
+
+(* ------------------------------------------------------------------ *)
+(* I5                                                                  *)
+
+Definition K5 (s : state) (o : op) : bool := ev_failed_create s o || ev_readded s o.
+
+Lemma I5_step s o x :
+  I5 (pl s) -> K5 s o = false -> step s o = Ok x -> I5 (pl (fst x)).
+Proof.
+  unfold K5. intros HI HK HS. apply orb_false_iff in HK. destruct HK as [HK1 HK2].
+  destruct o as [t|a b|env wn st ex|l b|h mine b]; simpl in HS.
+  - destruct (add_transaction_if_validates (ledger s) (pl s) t) eqn:A; simpl in HS; try discriminate.
+    inversion HS. subst. simpl. apply add_if_valid_cases in A.
+    destruct A as [->|[_ [_ [_ ->]]]]; auto using added_I5.
+  - inversion HS. subst. simpl. unfold I5.
+    destruct (add_gt_fields (pl s) a b) as [E1 [_ E3]]. rewrite E1, E3. exact HI.
+  - destruct (bundle_block (ledger s) (pl s) env wn st ex) as [[p' r]| |] eqn:B; simpl in HS; try discriminate.
+    inversion HS. subst. simpl. apply bundle_cases in B.
+    destruct B as [[-> _]|[s0 [p1 [_ [_ [A [[_ [F _]]|[_ [_ [-> _]]]]]]]]]]; auto.
+    + simpl in *. congruence.
+    + unfold I5. simpl. symmetry. apply N.mod_0_l. apply M64_pos.
+  - inversion HS. subst. simpl. unfold I5.
+    destruct (remove_block_fields l (pl s) b) as [_ [_ E3]]. rewrite E3. apply sum_work_spec.
+  - inversion HS. subst. simpl. unfold I5.
+    destruct (add_failure_fields (ledger s) (pl s) h mine b) as [_ E3]. rewrite E3.
+    replace (txs (add_block_failure (ledger s) (pl s) h mine b)) with (txs (pl s)); [exact HI|].
+    symmetry. destruct mine; [|apply add_failure_not_mine].
+    apply add_failure_no_readd. simpl in HK2. apply negb_false_iff in HK2. exact HK2.
+Qed.
+
+Theorem routing_work_cache : forall g ops s,
+  known_in K5 (init g) ops = false -> run (init g) ops = Ok s -> I5 (pl s).
+Proof.
+  intros g ops s HK HR.
+  eapply (run_invariant K5 (fun s => I5 (pl s))); eauto using I5_step.
+  unfold I5. simpl. symmetry. apply N.mod_0_l. apply M64_pos.
+Qed.
+
+(* the recomputation in delete_transactions repairs the cache unconditionally *)
+Theorem routing_work_exact_after_block : forall s l b x,
+  step s (OBlockAdded l b) = Ok x -> I5 (pl (fst x)).
+Proof.
+  intros s l b x H. simpl in H. inversion H. subst. simpl. unfold I5.
+  destruct (remove_block_fields l (pl s) b) as [_ [_ E3]]. rewrite E3. apply sum_work_spec.
+Qed.
+
+(* ------------------------------------------------------------------ *)
+(* I4: bundling                                                        *)
+
+Theorem bundle_atomic : forall l p env wn st ex p' r,
+  bundle_block l p env wn st ex = Ok (p', r) ->
+  create_fails l p env wn st ex = false ->
+  match r with
+  | None => p' = p
+  | Some b => txs p' = [] /\ work p' = 0 /\ dup_spend b = false /\
+              (forall t, In t (txs p) -> In t b) /\
+              (forall t k, In t b -> In k (in_keys t) -> ~ In k (umap p')) /\
+              gts p' = gts p
+  end.
+Proof.
+  intros l p env wn st ex p' r B F. apply bundle_cases in B.
+  destruct B as [[-> [-> _]]|[s0 [p1 [_ [_ [A [[_ [F' _]]|[D [_ [-> ->]]]]]]]]]]; [reflexivity|congruence|].
+  apply add_if_valid_cases in A.
+  assert (Hsub : forall t, In t (txs p) -> In t (txs p1))
+    by (destruct A as [->|[_ [_ [_ ->]]]]; simpl; auto).
+  assert (Hg : gts p1 = gts p) by (destruct A as [->|[_ [_ [_ ->]]]]; reflexivity).
+  simpl. repeat split; auto.
+  - intros t Ht. apply in_app_iff. left. auto.
+  - intros t k Ht Hk Hin. apply fold_srem_In in Hin. destruct Hin as [_ Hn]. apply Hn.
+    unfold block_keys. apply in_flat_map. eauto.
+Qed.
+
+Lemma NoDup_app' (a b : list N) : NoDup a -> NoDup b -> Disjoint a b -> NoDup (a ++ b).
+Proof.
+  induction a as [|x a IH]; simpl; intros Ha Hb D; [exact Hb|].
+  inversion Ha as [|x' a' Hx Ha']; subst. constructor.
+  - intros Hin. apply in_app_iff in Hin. destruct Hin as [Hin|Hin]; [contradiction|].
+    apply (D x); simpl; auto.
+  - apply IH; auto. intros k G1 G2. apply (D k); simpl; auto.
+Qed.
+
+Definition spent_of (t : tx) : list N := match t_type t with TFee => [] | _ => vkeys t end.
+
+Lemma spent_of_vkeys t k : In k (spent_of t) -> In k (vkeys t).
+Proof. unfold spent_of. destruct (t_type t); auto; intros []. Qed.
+
+Lemma spent_keys_In l k : In k (spent_keys l) -> exists t, In t l /\ In k (vkeys t).
+Proof.
+  unfold spent_keys. intros H. apply in_flat_map in H. destruct H as [t [Ht Hk]].
+  exists t. split; [exact Ht|]. apply spent_of_vkeys. exact Hk.
+Qed.
+
+Lemma spent_NoDup l :
+  ForallOrdPairs (fun a b => Disjoint (vkeys a) (vkeys b)) l ->
+  (forall t, In t l -> NoDup (vkeys t)) -> NoDup (spent_keys l).
+Proof.
+  induction 1 as [|a l Ha Hl IH]; intros Hn; [constructor|].
+  change (spent_keys (a :: l)) with (spent_of a ++ spent_keys l).
+  apply NoDup_app'.
+  - unfold spent_of. destruct (t_type a); try constructor; apply Hn; left; reflexivity.
+  - apply IH. intros t Ht. apply Hn. right. exact Ht.
+  - intros k G1 G2. apply spent_of_vkeys in G1. apply spent_keys_In in G2.
+    destruct G2 as [u [Hu Hku]]. rewrite Forall_forall in Ha. apply (Ha u Hu k); assumption.
+Qed.
+
+(* Block::create cannot fail after the drain when the pool has no double spend (I1, which
+   holds on every run without a re-insertion), no pooled transaction names an input twice,
+   and what Block::create adds itself does not clash *)
+Theorem create_succeeds : forall l p env wn st ex,
+  Reserved p -> I1 p ->
+  (forall t, In t (txs p) -> NoDup (vkeys t)) ->
+  (forall s, st = Some s -> NoDup (vkeys s)) ->
+  NoDup (spent_keys ex) ->
+  (forall k t, In k (spent_keys ex) -> In t (txs p) -> ~ In k (vkeys t)) ->
+  (forall k s, In k (spent_keys ex) -> st = Some s -> ~ In k (vkeys s)) ->
+  create_fails l p env wn st ex = false.
+Proof.
+  intros l p env wn st ex R H1 Hn Hs He Hd1 Hd2. unfold create_fails.
+  destruct (can_bundle_block p env wn); [|reflexivity]. simpl.
+  destruct st as [s|]; [|reflexivity].
+  destruct (add_transaction_if_validates l p s) as [p1| |] eqn:A; try reflexivity.
+  apply add_if_valid_cases in A. unfold dup_spend. apply has_dup_NoDup.
+  unfold spent_keys. rewrite flat_map_app. apply NoDup_app'.
+  - apply spent_NoDup.
+    + destruct A as [->|[_ [C [_ ->]]]]; [exact H1 | apply added_I1; assumption].
+    + destruct A as [->|[_ [_ [_ ->]]]]; [exact Hn|]. simpl. intros t [<-|Ht]; [eapply Hs; eauto | auto].
+  - exact He.
+  - intros k Hk1 Hk2. apply spent_keys_In in Hk1. destruct Hk1 as [t [Ht Hkt]].
+    destruct A as [->|[_ [_ [_ ->]]]].
+    + eapply Hd1; eauto.
+    + simpl in Ht. destruct Ht as [<-|Ht]; [eapply Hd2; eauto | eapply Hd1; eauto].
+Qed.
+
+(* ------------------------------------------------------------------ *)
+(* no panic, no error                                                  *)
+
+Definition op_no_gt (o : op) : Prop :=
+  match o with
+  | OAddTx t => t_type t <> TGoldenTicket
+  | OBundle _ _ (Some st) _ => t_type st <> TGoldenTicket
+  | _ => True
+  end.
+
+Lemma add_if_valid_total l p t :
+  t_type t <> TGoldenTicket -> exists p', add_transaction_if_validates l p t = Ok p'.
+Proof.
+  intros T. unfold add_transaction_if_validates, add_transaction.
+  destruct (producer_only t); [eauto|].
+  destruct (tx_validate l t); [|eauto].
+  destruct (conflicts p t); [eauto|]. destruct (has_tx (t_id t) (txs p)); [eauto|].
+  destruct (t_type t); try congruence; eauto.
+Qed.
+
+Lemma step_total s o : op_no_gt o -> exists x, step s o = Ok x.
+Proof.
+  intros H. destruct o as [t|a b|env wn st ex|l b|h mine b]; simpl in *; eauto.
+  - destruct (add_if_valid_total (ledger s) (pl s) t H) as [p' ->]. simpl. eauto.
+  - unfold bundle_block. destruct (negb (can_bundle_block (pl s) env wn)); simpl; [eauto|].
+    destruct st as [st|]; simpl; [|eauto].
+    destruct (add_if_valid_total (ledger s) (pl s) st H) as [p' ->]. simpl.
+    destruct (dup_spend (txs p' ++ ex)); simpl; eauto.
+Qed.
+
+Theorem no_panic : forall ops s, Forall op_no_gt ops -> exists s', run s ops = Ok s'.
+Proof.
+  induction ops as [|o r IH]; intros s HF; simpl; [eauto|].
+  inversion HF as [|o' r' Ho Hr]; subst. destruct (step_total s o Ho) as [x ->]. simpl. apply IH. assumption.
+Qed.
+
+(* the only panic site of the pool is a GoldenTicket-typed transaction reaching add_transaction *)
+Theorem panic_only_gt : forall l p t site,
+  add_transaction_if_validates l p t = Panic site ->
+  t_type t = TGoldenTicket /\ site = SITE_GT_IN_TXPOOL.
+Proof.
+  intros l p t site. unfold add_transaction_if_validates, add_transaction.
+  destruct (producer_only t); [discriminate|].
+  destruct (tx_validate l t); [|discriminate].
+  destruct (conflicts p t); [discriminate|]. destruct (has_tx (t_id t) (txs p)); [discriminate|].
+  destruct (t_type t); try discriminate. intros H. inversion H. auto.
+Qed.
+
+(* ------------------------------------------------------------------ *)
+(* refutations on the pinned model: smallest witnesses                 *)
+
+Definition wA  : tx := mkTx 10 [(1, 100)] 50 TNormal true 0.
+Definition wA2 : tx := mkTx 10 [(1, 100); (2, 100)] 50 TNormal true 0.
+Definition wB  : tx := mkTx 11 [(1, 100)] 30 TNormal true 0.      (* spends what wA spends *)
+Definition wC  : tx := mkTx 13 [(2, 100)] 20 TNormal true 0.
+Definition wD  : tx := mkTx 14 [(3, 100); (3, 100)] 70 TNormal true 0.   (* same input twice *)
+Definition wS  : tx := mkTx 90 [] 0 TBlockStake true 0.           (* staking transaction, stake 0 *)
+Definition wG  : list N := [1; 2; 3].
+
+(* own bundled block fails to be added; its transaction comes back unreserved and a
+   conflicting one is admitted *)
+Definition ops_readd : list op :=
+  [OAddTx wA; OBundle true 0 (Some wS) []; OBlockFailed 77 true [wA; wS]; OAddTx wB].
+(* a peer block spends one of the two inputs of a pooled transaction *)
+Definition ops_invalidated : list op :=
+  [OAddTx wA2; OBlockAdded [2; 3; 4] [mkTx 12 [(1, 100)] 0 TNormal true 0]].
+(* a peer block confirms a pooled transaction; a reorganisation returns to a ledger where
+   its input is unspent *)
+Definition ops_confirmed : list op :=
+  [OAddTx wA; OBlockAdded [2; 3; 4] [wA]; OBlockAdded [1; 2; 3; 5] []].
+(* a block off the longest chain contains a pooled transaction: the ledger is unchanged,
+   the transaction is deleted from the pool, its input stays reserved *)
+Definition ops_confirmed_offchain : list op :=
+  [OAddTx wA; OBlockAdded [1; 2; 3] [wA]].
+(* a transaction naming the same input twice makes Block::create fail after the drain *)
+Definition ops_dup_input : list op :=
+  [OAddTx wA; OAddTx wD; OBundle true 0 (Some wS) []].
+
+Lemma I1_refuted :
+  exists g ops s, run (init g) ops = Ok s /\ known_in ev_readded (init g) ops = true /\ ~ I1 (pl s).
+Proof.
+  exists wG, ops_readd. eexists. split; [vm_compute; reflexivity|]. split; [vm_compute; reflexivity|].
+  intros H. apply I1_I1b in H. vm_compute in H. discriminate.
+Qed.
+
+Lemma I3_refuted_invalidated :
+  exists g ops s, run (init g) ops = Ok s /\ known_in ev_invalidated (init g) ops = true /\ ~ I3 (pl s).
+Proof.
+  exists wG, ops_invalidated. eexists. split; [vm_compute; reflexivity|]. split; [vm_compute; reflexivity|].
+  intros H. apply I3_I3b in H. vm_compute in H. discriminate.
+Qed.
+
+Lemma I3_refuted_confirmed :
+  exists g ops s, run (init g) ops = Ok s /\ known_in ev_confirmed (init g) ops = true /\ ~ I3 (pl s).
+Proof.
+  exists wG, ops_confirmed. eexists. split; [vm_compute; reflexivity|]. split; [vm_compute; reflexivity|].
+  intros H. apply I3_I3b in H. vm_compute in H. discriminate.
+Qed.
+
+Lemma I3_refuted_failed_create :
+  exists g ops s, run (init g) ops = Ok s /\ known_in ev_failed_create (init g) ops = true /\ ~ I3 (pl s).
+Proof.
+  exists wG, ops_dup_input. eexists. split; [vm_compute; reflexivity|]. split; [vm_compute; reflexivity|].
+  intros H. apply I3_I3b in H. vm_compute in H. discriminate.
+Qed.
+
+(* user-visible: a spendable output that no pooled transaction names, and a fresh valid
+   transaction spending it that the pool does not take *)
+Definition funds_locked (s : state) (t : tx) : Prop :=
+  tx_validate (ledger s) t = true /\ t_type t = TNormal /\
+  has_tx (t_id t) (txs (pl s)) = false /\
+  (forall k u, In k (vkeys t) -> In u (txs (pl s)) -> ~ In k (in_keys u)) /\
+  add_transaction_if_validates (ledger s) (pl s) t = Ok (pl s).
+
+Lemma funds_locked_invalidated :
+  exists g ops s t, run (init g) ops = Ok s /\ funds_locked s t.
+Proof.
+  exists wG, ops_invalidated. eexists. exists wC. split; [vm_compute; reflexivity|].
+  unfold funds_locked. simpl. repeat split; try reflexivity. intros k u _ [].
+Qed.
+
+Lemma funds_locked_confirmed_reorg :
+  exists g ops s t, run (init g) ops = Ok s /\ funds_locked s t.
+Proof.
+  exists wG, ops_confirmed. eexists. exists wB. split; [vm_compute; reflexivity|].
+  unfold funds_locked. simpl. repeat split; try reflexivity. intros k u _ [].
+Qed.
+
+Lemma funds_locked_confirmed_offchain :
+  exists g ops s t, run (init g) ops = Ok s /\ funds_locked s t.
+Proof.
+  exists wG, ops_confirmed_offchain. eexists. exists wB. split; [vm_compute; reflexivity|].
+  unfold funds_locked. simpl. repeat split; try reflexivity. intros k u _ [].
+Qed.
+
+Lemma funds_locked_failed_create :
+  exists g ops s t, run (init g) ops = Ok s /\ funds_locked s t.
+Proof.
+  exists wG, ops_dup_input. eexists. exists wB. split; [vm_compute; reflexivity|].
+  unfold funds_locked. simpl. repeat split; try reflexivity. intros k u _ [].
+Qed.
+
+Lemma I4_refuted :
+  exists g ops s env wn st ex p',
+    run (init g) ops = Ok s /\
+    bundle_block (ledger s) (pl s) env wn st ex = Ok (p', None) /\ p' <> pl s /\
+    ev_failed_create s (OBundle env wn st ex) = true.
+Proof.
+  exists wG, [OAddTx wA; OAddTx wD]. eexists. exists true, 0, (Some wS), []. eexists.
+  split; [vm_compute; reflexivity|]. split; [vm_compute; reflexivity|].
+  split; [intros H; inversion H | vm_compute; reflexivity].
+Qed.
+
+(* the same failure without any ill-formed transaction: the double spend that a
+   re-insertion let into the pool (ops_readd) makes the next Block::create fail *)
+Lemma I4_refuted_after_readd :
+  exists g ops s env wn st ex p',
+    run (init g) ops = Ok s /\
+    forallb (fun t => negb (has_dup (vkeys t))) (txs (pl s)) = true /\
+    bundle_block (ledger s) (pl s) env wn st ex = Ok (p', None) /\ p' <> pl s /\
+    ev_failed_create s (OBundle env wn st ex) = true.
+Proof.
+  exists wG, ops_readd. eexists. exists true, 0, (Some wS), []. eexists.
+  split; [vm_compute; reflexivity|]. split; [vm_compute; reflexivity|].
+  split; [vm_compute; reflexivity|].
+  split; [intros H; inversion H | vm_compute; reflexivity].
+Qed.
+
+Lemma funds_locked_after_readd :
+  exists g ops s t, run (init g) ops = Ok s /\ funds_locked s t.
+Proof.
+  exists wG, (ops_readd ++ [OBundle true 0 (Some wS) []]). eexists.
+  exists (mkTx 17 [(1, 100)] 5 TNormal true 0). split; [vm_compute; reflexivity|].
+  unfold funds_locked. simpl. repeat split; try reflexivity. intros k u _ [].
+Qed.
+
+Lemma I5_refuted_failed_create :
+  exists g ops s, run (init g) ops = Ok s /\ known_in ev_failed_create (init g) ops = true /\ ~ I5 (pl s).
+Proof.
+  exists wG, ops_dup_input. eexists. split; [vm_compute; reflexivity|]. split; [vm_compute; reflexivity|].
+  intros H. apply I5_I5b in H. vm_compute in H. discriminate.
+Qed.
+
+Lemma I5_refuted_readded :
+  exists g ops s, run (init g) ops = Ok s /\ known_in ev_readded (init g) ops = true /\ ~ I5 (pl s).
+Proof.
+  exists wG, ops_readd. eexists. split; [vm_compute; reflexivity|]. split; [vm_compute; reflexivity|].
+  intros H. apply I5_I5b in H. vm_compute in H. discriminate.
+Qed.
+
+(* a GoldenTicket-typed transaction handed to add_transaction_if_validates panics *)
+Lemma panic_reachable :
+  exists g t, step (init g) (OAddTx t) = Panic SITE_GT_IN_TXPOOL.
+Proof. exists wG, (mkTx 20 [(0, 0)] 0 TGoldenTicket true 5). reflexivity. Qed.
+
+(* ------------------------------------------------------------------ *)
+(* non-vacuity: a run outside every class that pools, conflicts, bundles, confirms *)
+
+Definition wE : tx := mkTx 15 [(3, 100)] 40 TNormal true 0.
+Definition ops_clean : list op :=
+  [OAddTx wA2; OAddTx wB; OAddTx wA2; OAddGT 7 21;
+   OBundle true 0 (Some wS) [mkTx 21 [(0, 0)] 0 TGoldenTicket true 7];
+   OBlockAdded [3; 4; 5] [mkTx 21 [(0, 0)] 0 TGoldenTicket true 7; wA2; wS];
+   OAddTx wE;
+   OBlockAdded [3; 4; 5; 6] [mkTx 16 [(9, 5)] 0 TNormal true 0];
+   OBlockFailed 78 false [wE]].
+
+Definition Kall (s : state) (o : op) : bool :=
+  ev_invalidated s o || ev_confirmed s o || ev_failed_create s o || ev_readded s o
+  || ev_sig_collision s o.
+
+Lemma clean_example :
+  exists s, run (init wG) ops_clean = Ok s /\ known_in Kall (init wG) ops_clean = false /\
+            map t_id (txs (pl s)) = [15] /\ umap (pl s) = [3] /\ work (pl s) = 40.
+Proof. eexists. split; [vm_compute; reflexivity|]. repeat split; vm_compute; reflexivity. Qed.
